@@ -15,6 +15,11 @@ CLAIMS["C09"] = dict(
    text="Decides for ALL strings that the language the PEP 440 parser accepts equals Appendix B with ASCII case folding (two independent oracles, shortest witness on failure), and the structural necessary conditions of 'prints the normal form with every number preserved': no discarded ParseIntError, label table total on the regex's spellings with the PEP 440 mapping, every Ok passes normalize() whose implicit-number table is extracted, Display uses the normal-form separator/label/epoch table, `check` uses the same parser. Idempotence and 'normal form compares equal' are value laws and are not decided.",
    note="Trusted: rustc MIR, zfacts, regex-syntax/regex-automata, oracle transcriptions (cross-checked each run). Assumes regex and u32::from_str behave as documented.",
    ref="4/C09")
+CLAIMS["C18"] = dict(
+   technique="cross-language table agreement: Python ast extraction vs clap option tables read from derive-generated MIR (name, arity, value type, value domain), plus statement-shape rules on the two helper functions",
+   text="Decides, for every keyword of the four Python functions (a finite set, enumerated completely), that the emitted flag is an option of that sub-command carrying the keyword's name, with matching arity, integer typing and a Literal domain contained in the option's accepted values; that each keyword is used exactly once; and that _extend_args / _run_zerv_command have the statement shape that yields 'None/False add nothing', 'returns stripped stdout', 'raises on non-zero exit'. The Rust suite never looks at the Python file, and nothing is executed here either.",
+   note="Trusted: rustc MIR of clap's derive expansion, python's ast, clap/subprocess semantics as documented. Not decided: that the spawned binary is the one built from /repo.",
+   ref="4/C18")
 REASONS = {}
 
 def main():
